@@ -91,6 +91,11 @@ def exceptionShapes : List String :=
   (productions.filterMap (fun p => if labelNonterminals.contains p.1 then openAcross p.2 else none)).eraseDups
 
 
+/-- every callback a label's grammar can fire (any production of a nonterminal reachable from a label entry point) -/
+def labelCallbacks : List String :=
+  ((productions.filter (fun p => labelNonterminals.contains p.1)).map
+    (fun p => p.2.filterMap (fun it => match it with | .call c => some c | _ => none))).flatten.eraseDups
+
 /-- running frame depth over a production's own callbacks (nonterminals count as balanced sub-derivations): `none` if the
     production ever pops a frame it did not push itself, otherwise the depth at its end -/
 def prodFrameBalance : Nat → List Item → Option Nat
